@@ -108,6 +108,11 @@ def run_check(mod, ctx, audit, budget):
         os.unlink(pf)
     if os.WIFEXITED(status) and os.WEXITSTATUS(status) == 4:
         return None
+    if res is None and os.WIFEXITED(status) and os.WEXITSTATUS(status) == 2:
+        # the alarm handler inherited by the child printed TIMEOUT and left with 2: a time-out of the check body is an
+        # infrastructure outcome (exit 2), never a violation
+        print(f'TIMEOUT property={ctx.prop} (check body; exit 2, not a violation)')
+        os._exit(2)
     if res is None:
         sig = os.WTERMSIG(status) if os.WIFSIGNALED(status) else None
         if sig == signal.SIGALRM:
